@@ -40,7 +40,7 @@ inductive SetupOutcome (S : Type) where
   /-- the C++ constructor would read memory it never wrote (row without diagonal where the code does not check):
   outside the domain of every property; the driver answers `bad-input` and the harness does not run the code -/
   | undefinedInput
-deriving Repr
+deriving Repr, DecidableEq
 
 /-- a smoother in the shape the cycle consumes -/
 structure Smoother (K : Type) (S : Type) where
@@ -48,6 +48,15 @@ structure Smoother (K : Type) (S : Type) where
   applyPre  : S → CRS K → Vec K → Vec K → Vec K → Vec K × Vec K
   applyPost : S → CRS K → Vec K → Vec K → Vec K → Vec K × Vec K
   apply     : S → CRS K → Vec K → Vec K
+
+section structural
+variable {K : Type}
+
+/-- every row `i` stores column `i` exactly once (duplicated off-diagonal entries are allowed) -/
+def diagOnceb (A : CRS K) : Bool :=
+  (List.range A.nrows).all (fun i => (A.row i).countP (fun cv => cv.1 == i) == 1)
+
+end structural
 
 section vec
 variable {K : Type} [Add K] [Mul K] [Zero K]
